@@ -28,16 +28,18 @@ type unlimitedSchedule struct {
 }
 
 func (s *unlimitedSchedule) Start(startAt time.Time) {
-	s.MarkStarted()
+	// finish has to be known before anyone can see the schedule as started,
+	// otherwise Left reports 0 for a schedule that has only just begun.
 	s.startOnce.Do(func() {
 		s.finish.Store(startAt.Add(s.duration))
 	})
+	s.MarkStarted()
 }
 
 func (s *unlimitedSchedule) Next() (tx time.Time, ok bool) {
 	s.startOnce.Do(func() {
-		s.MarkStarted()
 		s.finish.Store(time.Now().Add(s.duration))
+		s.MarkStarted()
 	})
 	now := time.Now()
 	if now.Before(s.finish.Load()) {
